@@ -121,7 +121,7 @@ func (a *atom) eval(c ctx) bool {
 }
 
 var cmpOps = []string{"<", "<=", ">", ">=", "==", "!="}
-var codes = []int{0, 200, 201, 204, 205, 206, 304, 400, 404, 409, 500, 502, 503, 504}
+var codes = []int{0, 200, 201, 204, 205, 206, 304, 400, 404, 409, 500, 502, 503, 504, 599, 600, 799, 999}
 
 func genAtom(t *rapid.T) node {
 	switch rapid.IntRange(0, 5).Draw(t, "atomKind") {
